@@ -113,9 +113,7 @@ def gen_op(rng, pool):
 def gen_program(rng, stream, nops):
     spec = gen_spec(rng, stream)
     if stream == "clean":
-        pool = CLEAN
-        if spec["lock"] == "memmap_":
-            pool = [k for k in CLEAN if k not in ("sub_unlock",)]   # D7: members of a memmap_-locked tree unlock alone
+        pool = CLEAN    # "sub_unlock" included for memmap_-locked trees: with D7 repaired the unlock of a nested node is refused there too
         if spec["lock"] == "params":
             spec["root"].pop("names", None)
     elif stream == "lazyroot":
@@ -141,9 +139,20 @@ def witnesses():
         ("ok:D19-nontensor-promotion", {"spec": {"root": base, "lock": "lock_"}, "ops": [{"op": "nt_setitem", "node": 0, "leaf": 0, "idx": 0, "v": 7}]}),
         ("ok:S4-nontensor-set_at", {"spec": {"root": base, "lock": "lock_"}, "ops": [{"op": "nt_set_at", "node": 0, "leaf": 0, "idx": 0, "v": 7}]}),
         ("ok:D60-make_memmap", {"spec": {"root": base, "lock": "memmap_"}, "ops": [{"op": "make_memmap", "node": 0, "which": 0, "v": 2}]}),
-        ("D60-make_memmap_nested-in-memmap-tree", {"spec": {"root": base, "lock": "memmap_"}, "ops": [{"op": "make_memmap_from_tensor", "node": 0, "which": 1, "v": 2}]}),
+        # D69: the nested tensordict that make_memmap*(nested key) attaches under lock is not locked: it is written structurally
+        # below the root's memoised results (nodes after the first op: root, n, mn1)
+        ("nested-node-attached-under-lock", {"spec": {"root": base, "lock": "memmap_"}, "ops": [{"op": "make_memmap_from_tensor", "node": 0, "which": 1, "v": 2},
+                                                                                            {"op": "struct_fail", "node": 2, "which": 0}]}),
         ("ok:D61-memmap_under_lock", {"spec": {"root": base, "lock": "lock_"}, "ops": [{"op": "memmap_under_lock"}, {"op": "set_", "node": 0, "leaf": 2, "v": 5}]}),
-        ("memmap-subtree-unlock", {"spec": {"root": base, "lock": "memmap_"}, "ops": [{"op": "mm_sub_unlock_edit", "node": 0, "v": 4}]}),
+        # D62 (consequence of D7) is repaired: memmap_ builds the lock graph, the nested node cannot be unlocked alone (the Coq
+        # theorem C06_memmap_subtree_unlock_refused is this history); clean afterwards
+        ("ok:memmap-subtree-unlock-refused", {"spec": {"root": base, "lock": "memmap_"},
+                                              "ops": [{"op": "mm_sub_unlock_edit", "node": 0, "v": 4}, {"op": "sub_unlock", "node": 0}, {"op": "add_", "node": 0, "v": 2}],
+                                              "expect": {"1": "raise:LockError", "2": "raise:LockError", "3": "ok"}}),
+        # D68: the refused unlock_ of ONE member of a lazy stack inside a memory-mapped tree leaves _is_memmap cleared on that member
+        # (nodes: root, lz, lz/#0, lz/#1, lz/#2)
+        ("refused-unlock-clears-memmap-flag", {"spec": {"root": inner, "lock": "memmap_"}, "ops": [{"op": "sub_unlock", "node": 1}],
+                                               "expect": {"1": "raise:LockError"}}),
         ("ok:D63-names-under-lock", {"spec": {"root": named, "lock": "lock_"}, "ops": [{"op": "names", "node": 0, "which": 1}]}),
         ("ok:D63-batch_size-under-lock", {"spec": {"root": base, "lock": "lock_"}, "ops": [{"op": "batch_size", "node": 0}]}),
         ("ok:S11-lazy-names", {"spec": {"root": lazy_named, "lock": "lock_"}, "ops": [{"op": "names", "node": 1, "which": 1}, {"op": "names", "node": 2, "which": 1},
@@ -338,6 +347,8 @@ def absorb(R, res, label_prefix=""):
             continue
         seen.add(k)
         case = {"spec": prog["spec"], "ops": prog["ops"][:step], "stream": prog.get("stream"), "fronts": prog.get("fronts")}
+        if prog.get("expect"):
+            case["expect"] = prog["expect"]
         R.oracle_fail(label, case, dict(short(detail), step=step), sig)
 
 
@@ -349,7 +360,8 @@ def main(R):
     R.rule = ("histories = (tree descriptor: nested TensorDicts depth 0..3, tensor leaves of 5 dtypes, NonTensorData leaves, lazy stacks as "
               "entries or as root; locked by lock_ / memmap_ / member-wise) x (op list drawn from in-place writes through any node handle, "
               "whole-tree in-place arithmetic, indexed writes, lock/unlock cycles with structural edits, failing structural writes, "
-              "partial reads; dirty stream adds non-tensor promotion, make_memmap*, memmap_ under lock, sub-tree unlock of memmap trees, "
+              "partial reads, refused unlocks of nested nodes (lock_ and memmap_ trees alike); dirty stream adds non-tensor promotion, "
+              "make_memmap*, memmap_ under lock, sub-tree unlock + edit of memmap trees (refused since D7's repair), "
               "names / batch_size assignment, member-wise relock, result mutation, is_leaf objects at a reused address); distinct by "
               "sha1 of the program; non-trivial = at least one op succeeded and at least one read was compared")
     R.assumptions = ["CPython decides when an address is reused; the run only provokes it (create/drop until id() repeats)",
@@ -420,7 +432,7 @@ def replay(body):
     torch.set_num_threads(1)
     from .c06_hist import run_program
     case = body["case"]
-    prog = {"spec": case["spec"], "ops": case["ops"], "fronts": case.get("fronts")}
+    prog = {"spec": case["spec"], "ops": case["ops"], "fronts": case.get("fronts"), "expect": case.get("expect")}
     print("program:", json.dumps(prog))
     r = run_program(prog)
     for s in r.steps:
